@@ -51,16 +51,24 @@ CLASSES = ['TreeNeuron', 'MeshNeuron', 'Dotprops', 'VoxelNeuron', 'NeuronList']
 
 SIG_OR = 'NeuronList.__or__(neuron) / receiver list mutated / other not a member'
 SIG_TAGS = 'copy() shallow-copies tags / tag lists shared between input and result / result.tags[k].append'
+SIG_FMB = "find_main_branchpoint(method='betweenness') / undocumented 'betweenness' column left in the input node table / reroot_soma=False"
+SIG_TOSKEL = 'Dotprops.to_skeleton / connector table object shared with the result / dotprops has connectors'
 
 
 # =================================================================================================
 # inputs
 # =================================================================================================
 def build_tree(rng, forest=False, n=None, ident=0):
-    n = n or rng.randint(10, 22)
-    shape = 'forest' if forest else rng.choice(['random', 'caterpillar', 'broom', 'balanced', 'random'])
-    rows, meta = gen.rand_forest(rng, n=n, shape=shape, labeling=rng.choice(['seq', 'shuffled', 'sparse']),
-                                 order=rng.choice(['parent_first', 'shuffled']))
+    n = n or rng.randint(12, 22)
+    while True:
+        shape = 'forest' if forest else rng.choice(['random', 'caterpillar', 'broom', 'balanced', 'random'])
+        rows, meta = gen.rand_forest(rng, n=n, shape=shape, labeling=rng.choice(['seq', 'shuffled', 'sparse']),
+                                     order=rng.choice(['parent_first', 'shuffled']))
+        ch = gen.children_map(rows)
+        nbranch = sum(1 for k, v in ch.items() if k >= 0 and len(v) >= 2)
+        nroots = len(ch.get(-1, []))
+        if nbranch >= 2 and (nroots >= 2 if forest else nroots == 1):
+            break
     x = gen.to_neuron(rows, units='8 nm', name=f't{ident}', id=100 + ident)
     ids = [r['id'] for r in rows]
     k = min(6, len(ids))
@@ -112,6 +120,11 @@ def build(kind, seed, warm=False):
     rng = _random.Random(f'c03-input-{kind}-{seed}')
     if kind == 'tree':
         x = build_tree(rng)
+    elif kind == 'tree_lab':
+        x = build_tree(rng)
+        lab = np.full(len(x.nodes), 3, dtype=np.int64)
+        lab[x.nodes.parent_id.values < 0] = 1
+        x.nodes['label'] = lab
     elif kind == 'forest':
         x = build_tree(rng, forest=True)
     elif kind == 'mesh':
@@ -309,8 +322,10 @@ def results_of(res):
     return out
 
 
-def mutate_result(res, st, tags=False):
+def mutate_result(res, st, tags=False, neurons=True):
     for o in results_of(res):
+        if isinstance(o, navis.BaseNeuron) and not neurons:
+            continue
         if isinstance(o, navis.NeuronList):
             try:
                 o.neurons.append(None)
@@ -330,9 +345,19 @@ def mutate_result(res, st, tags=False):
 # =================================================================================================
 # the catalogue
 # =================================================================================================
+_TMPDIRS = []
+
+
 def _tmp():
     d = tempfile.mkdtemp(prefix='c03_')
+    _TMPDIRS.append(d)
     return Path(d)
+
+
+def _cleanup():
+    import shutil
+    while _TMPDIRS:
+        shutil.rmtree(_TMPDIRS.pop(), ignore_errors=True)
 
 
 def _ids(x):
@@ -406,7 +431,7 @@ SPEC = {
     'mesh': dict(kinds=['tree', 'voxel'], args=lambda x, r: A()),
     'skeletonize': dict(kinds=['mesh'], args=lambda x, r: A()),
     'voxelize': dict(kinds=['tree', 'mesh', 'dots'], args=lambda x, r: A(4.0)),
-    'Neuron': dict(kinds=['tree', 'mesh', 'dots', 'voxel'], args=lambda x, r: A()),
+    'Neuron': dict(kinds=['tree', 'mesh'], args=lambda x, r: A()),
     'make_dotprops': dict(kinds=['tree', 'mesh', 'dots', 'voxel', 'nl_tree'], args=lambda x, r: A(k=3)),
     # ---- graph
     'cut_skeleton': dict(kinds=['tree'], args=lambda x, r: A(_nonroot(x, r))),
@@ -439,7 +464,8 @@ SPEC = {
     'write_nrrd': dict(kinds=['voxel', 'dots'], args=lambda x, r: A(_tmp() / 'o.nrrd')),
     'write_mesh': dict(kinds=['mesh'], args=lambda x, r: A(_tmp() / 'o.ply')),
     # ---- meshes
-    'fix_mesh': dict(kinds=['mesh'], args=lambda x, r: A(fill_holes=True, remove_fragments=3)),
+    'fix_mesh': dict(kinds=['mesh'], args=lambda x, r: A(fill_holes=True, remove_fragments=3),
+                     expect_fail='installed trimesh has no Trimesh.remove_duplicate_faces: raises for every mesh'),
     'simplify_mesh': dict(kinds=['mesh'], args=lambda x, r: A(0.5)),
     'smooth_mesh': dict(kinds=['mesh'], args=lambda x, r: A(iterations=2)),
     # ---- morpho
@@ -457,16 +483,16 @@ SPEC = {
     'form_factor': dict(kinds=['tree'], args=lambda x, r: A(num=5, progress=False)),
     'guess_radius': dict(kinds=['tree'], args=lambda x, r: A()),
     'heal_skeleton': dict(kinds=['forest', 'nl_tree'], args=lambda x, r: A()),
-    'ivscc_features': dict(kinds=['tree'], args=lambda x, r: A(progress=False)),
+    'ivscc_features': dict(kinds=['tree_lab'], args=lambda x, r: A(progress=False)),
     'persistence_points': dict(kinds=['tree'], args=lambda x, r: A()),
     'persistence_vectors': dict(kinds=['nl_tree'], args=lambda x, r: A(samples=10)),
     'persistence_distances': dict(kinds=['nl_tree'], args=lambda x, r: A()),
     'prune_at_depth': dict(kinds=['tree', 'nl_tree'], args=lambda x, r: A(12)),
     'prune_by_strahler': dict(kinds=['tree', 'nl_tree'], args=lambda x, r: A(to_prune=1)),
     'prune_twigs': dict(kinds=['tree', 'nl_tree'], args=lambda x, r: A(6)),
-    'segment_analysis': dict(kinds=['tree'], args=lambda x, r: A(), expect_fail='pandas 3: read-only assignment (DESIGN §6 #3)'),
-    'segregation_index': dict(kinds=['tree'], args=lambda x, r: A()),
-    'sholl_analysis': dict(kinds=['tree'], args=lambda x, r: A(radii=4)),
+    'segment_analysis': dict(kinds=['tree'], args=lambda x, r: A(), annot=['strahler_index'], expect_fail='pandas 3: read-only assignment (DESIGN §6 #3)'),
+    'segregation_index': dict(kinds=['nl_tree'], args=lambda x, r: A()),
+    'sholl_analysis': dict(kinds=['tree'], args=lambda x, r: A(radii=4, center='root')),
     'smooth_skeleton': dict(kinds=['tree', 'nl_tree'], args=lambda x, r: A(window=3)),
     'smooth_voxels': dict(kinds=['voxel'], args=lambda x, r: A(sigma=1)),
     'split_axon_dendrite': dict(kinds=['tree'], args=lambda x, r: A(reroot_soma=False)),
@@ -477,7 +503,7 @@ SPEC = {
         (np.arange((x.n_vertices if isinstance(x, navis.MeshNeuron) else len(x.points))) % 3 != 0))),
     'synapse_flow_centrality': dict(kinds=['tree'], args=lambda x, r: A(), annot=['synapse_flow_centrality']),
     'thin_voxels': dict(kinds=['voxel'], args=lambda x, r: A()),
-    'tortuosity': dict(kinds=['tree'], args=lambda x, r: A(seg_length=3)),
+    'tortuosity': dict(kinds=['tree'], args=lambda x, r: A(seg_length=12)),
     # ---- nblast
     'nblast': dict(kinds=['dots', 'nl_dots'], args=lambda x, r: A(_other_dots(), n_cores=1, progress=False)),
     'nblast_allbyall': dict(kinds=['nl_dots'], args=lambda x, r: A(n_cores=1, progress=False)),
@@ -519,7 +545,8 @@ SPEC = {
     'MeshNeuron.skeletonize': dict(kinds=['mesh'], args=lambda x, r: A()),
     'MeshNeuron.snap': dict(kinds=['mesh'], args=lambda x, r: A([1.0, 2.0, 3.0])),
     'MeshNeuron.summary': dict(kinds=['mesh'], args=lambda x, r: A()),
-    'MeshNeuron.validate': dict(kinds=['mesh'], args=lambda x, r: A()),
+    'MeshNeuron.validate': dict(kinds=['mesh'], args=lambda x, r: A(),
+                               expect_fail='delegates to fix_mesh (installed trimesh has no remove_duplicate_faces)'),
     # ---- methods: Dotprops
     'Dotprops.convert_units': dict(kinds=['dots'], args=lambda x, r: A('um')),
     'Dotprops.copy': dict(kinds=['dots'], args=lambda x, r: A()),
@@ -548,15 +575,15 @@ SPEC = {
     'NeuronList.copy': dict(kinds=['nl_tree', 'nl_dots'], args=lambda x, r: A()),
     'NeuronList.get_neuron_attributes': dict(kinds=['nl_tree'], args=lambda x, r: A('name')),
     'NeuronList.head': dict(kinds=['nl_tree'], args=lambda x, r: A()),
-    'NeuronList.itertuples': dict(kinds=['nl_tree'], args=lambda x, r: A()),
+    'NeuronList.itertuples': dict(selector=True, kinds=['nl_tree'], args=lambda x, r: A()),
     'NeuronList.mean': dict(kinds=['nl_tree'], args=lambda x, r: A()),
     'NeuronList.memory_usage': dict(kinds=['nl_tree'], args=lambda x, r: A()),
     'NeuronList.remove_duplicates': dict(kinds=['nl_tree'], args=lambda x, r: A(key='units')),
-    'NeuronList.sample': dict(kinds=['nl_tree'], args=lambda x, r: A(2), nondet=True),
+    'NeuronList.sample': dict(selector=True, kinds=['nl_tree'], args=lambda x, r: A(2), nondet=True),
     'NeuronList.sum': dict(kinds=['nl_tree'], args=lambda x, r: A()),
     'NeuronList.summary': dict(kinds=['nl_tree'], args=lambda x, r: A()),
     'NeuronList.tail': dict(kinds=['nl_tree'], args=lambda x, r: A()),
-    'NeuronList.unmix': dict(kinds=['nl_tree'], args=lambda x, r: A()),
+    'NeuronList.unmix': dict(selector=True, kinds=['nl_tree'], args=lambda x, r: A()),
 }
 
 SKIP = {
@@ -679,8 +706,11 @@ def sweep_case(ctx, case):
         ctx.count('sweep_called', 'inplace-capable' if ip else 'no-inplace-parameter')
     s1 = snap(x)
     d = snap_diff(s0, s1, annot)
+    if err is not None and spec.get('expect_fail'):
+        return                      # skipped-with-reason: raises for every input in this environment
     ctx.oracle(not d, f'{tag}: input modified by a call without inplace=True (differs in {d[:6]})'
-                      + (f' [call raised {short(err)}]' if err is not None else ''), case)
+                      + (f' [call raised {short(err)}]' if err is not None else ''), case,
+               signature=(SIG_FMB if (name == 'find_main_branchpoint' and d == ['nodes.betweenness']) else None))
     if members0 is not None:
         ctx.oracle(members0 == [id(n) for n in x.neurons], f'{tag}: the input NeuronList holds different neuron objects after the call', case)
     if annot:
@@ -694,17 +724,21 @@ def sweep_case(ctx, case):
     s_res = snap(res) if isinstance(res, (navis.BaseNeuron, navis.NeuronList)) else None
     st = {}
     if name not in RETURNS_INPUT:
-        mutate_result(res, st, tags=False)
+        sel = not spec.get('selector')      # selectors hand back the member objects themselves (like `nl[i]`)
+        mutate_result(res, st, tags=False, neurons=sel)
         for k, v in st.items():
             ctx.count('mutated_' + k, v if k.endswith('errors') else 'n')
         s2 = snap(x)
         d2 = snap_diff(s1, s2)
-        ctx.oracle(not d2, f'{tag}: editing the tables/arrays of the RESULT changed the input (shared {d2[:6]})', case)
+        ctx.oracle(not d2, f'{tag}: editing the tables/arrays of the RESULT changed the input (shared {d2[:6]})', case,
+                   signature=(SIG_TOSKEL if (name == 'Dotprops.to_skeleton' and all(k.startswith('connectors') for k in d2)) else None))
         # tag lists (separate failure kind)
-        mutate_result(res, st, tags=True)
+        mutate_result(res, st, tags=True, neurons=sel)
         s3 = snap(x)
         d3 = [k for k in snap_diff(s2, s3) if k.endswith('tags')]
         d3o = [k for k in snap_diff(s2, s3) if not k.endswith('tags')]
+        if name == 'Dotprops.to_skeleton':
+            d3o = [k for k in d3o if not k.startswith('connectors')]        # already reported above
         ctx.oracle(not d3, f'{tag}: appending to a tag list of the RESULT changed the input\'s tags (copy() shares the lists)',
                    case, signature=SIG_TAGS)
         ctx.oracle(not d3o, f'{tag}: editing the result changed the input ({d3o[:6]})', case)
@@ -729,7 +763,7 @@ def sweep_case(ctx, case):
             return
         ctx.count('inplace_return', 'self' if r2 is y else ('None' if r2 is None else type(r2).__name__))
         ctx.oracle(r2 is y or r2 is None, f'{tag}: inplace=True returned a different object ({type(r2).__name__}) instead of the input (or None)', case)
-        if members_y is not None:
+        if members_y is not None and not name.startswith('NeuronList.'):
             ctx.oracle(members_y == [id(n) for n in y.neurons],
                        f'{tag}: inplace=True on a NeuronList did not keep the same neuron objects in the same order', case)
         if s_res is not None:
@@ -781,6 +815,8 @@ def arith_case(ctx, case):
     ctx.oracle(not [q for q in d3 if q.endswith('tags')], f'{tag}: appending to a tag list of the result changed the input\'s tags',
                case, signature=SIG_TAGS)
     ctx.oracle(not [q for q in d3 if not q.endswith('tags')], f'{tag}: editing the result changed the input', case)
+    if kind.startswith('nl_'):
+        return          # NeuronList defines no __imul__: `nl *= k` is `nl = nl * k` by Python's rules
     y = build(kind, seed, case['warm'])
     y0 = y
     y = ifn(y, k)
@@ -1126,10 +1162,10 @@ def trace_cases(ctx):
             ctx.corr('1', m['frame'], f'Lean trace semantics: frame must hold for the guarded trace of {r["key"]}', case)
         if m['nwbg'] == '0':
             ctx.corr('0', m['frame'], f'Lean trace semantics: frame must fail for a write-before-guard trace', case)
-        ctx.oracle(r['ok'] or r['key'] == 'synthetic',
-                   f'{r["key"]}: the source does not copy the input before its first write (trace {list(t)}) — '
-                   f'`if not inplace: x = x.copy()` missing or misplaced', case)
     ctx.extra['translator_functions'] = len(rows)
+    bad = [r['key'] for r in rows if not r['ok']]
+    ctx.extra['unguarded_functions'] = bad      # `all_guarded` fails to check exactly when this is non-empty
+    return bad
 
 
 # =================================================================================================
@@ -1138,9 +1174,12 @@ def trace_cases(ctx):
 RUNNERS = {}
 
 
-def gen_sweep_cases(ctx):
+def gen_sweep_cases(ctx, first=()):
     cat = catalogue()
-    names = sorted(cat)
+    # functions the translator flagged (no copy before the first write) are swept first, so that the first failing
+    # case of the run is a concrete input for exactly that function
+    flagged = {k.split(':')[1] for k in first}
+    names = sorted(cat, key=lambda n: (n not in flagged and n.split('.')[-1] not in {f.split('.')[-1] for f in flagged}, n))
     skipped, uncovered = {}, []
     for n in names:
         if n in SKIP:
@@ -1162,7 +1201,7 @@ def gen_sweep_cases(ctx):
                         continue
                     yield 'sweep', dict(name=n, input=kind, seed=seed, warm=warm)
     for kind in ['tree', 'mesh', 'dots', 'voxel', 'nl_tree']:
-        for op, _ in ARITH_OPS:
+        for op, _ in (ARITH_OPS if kind != 'nl_tree' else ARITH_OPS[:2]):
             for seed in seeds[: 2 if not ctx.quick() else 1]:
                 yield 'arith', dict(input=kind, op=op, seed=seed, warm=(kind == 'tree' and seed % 2 == 0))
     for op in ['add', 'sub', 'and', 'or', 'orl']:
@@ -1211,11 +1250,14 @@ def run(ctx):
         'tag lists, user-defined attributes and the trimesh cache are outside the heap model (tags are covered by the sweep)']
     if ctx.search_mode:
         ctx.notes.append('search mode: sweep repeated with fresh input seeds')
-    trace_cases(ctx)
-    for kind, case in itertools.chain(gen_prim_cases(ctx), gen_sweep_cases(ctx)):
+    bad = trace_cases(ctx)
+    for kind, case in itertools.chain(gen_sweep_cases(ctx, first=bad), gen_prim_cases(ctx)):
         c = dict(case, kind=kind)
         ctx.case(c, nontrivial=(kind != 'prim' or bool(case.get('body'))))
-        RUNNERS[kind](ctx, c)
+        try:
+            RUNNERS[kind](ctx, c)
+        finally:
+            _cleanup()
 
 
 def replay(ctx, rp):
@@ -1225,4 +1267,7 @@ def replay(ctx, rp):
     if kind == 'trace':
         trace_cases(ctx)
         return
-    RUNNERS[kind](ctx, case)
+    try:
+        RUNNERS[kind](ctx, case)
+    finally:
+        _cleanup()
